@@ -202,4 +202,155 @@ Proof.
   - apply kron_fold_spec.
 Qed.
 
+(* ---------------- the expressions of solvers.py:32-37 = the recursive forms of Proofs2 ------- *)
+Local Notation set_nth := (@Model2.set_nth (mat R)).
+Local Notation colvec := (Model2.colvec R).
+Local Notation onesv := (fun n => Model2.colvec R n (Model2.ones R rI n)).
+Local Notation dfltm := (mkmat R 0 0 (fun _ _ => rO)).
+
+Lemma sumn_shift : forall n (f : nat -> R), sumn (S n) f = f 0%nat + sumn n (fun d => f (S d)).
+Proof. induction n; intros. simpl. ring. cbn [Model.sumn] in *. rewrite IHn. ring. Qed.
+
+(* replacing the d-th matrix by one of the same shape keeps the shape lists *)
+Lemma shapes_set_nth : forall (Ms : list (mat R)) d K,
+  mrows R K = mrows R (nth d Ms dfltm) -> mcols R K = mcols R (nth d Ms dfltm) -> (d < length Ms)%nat ->
+  rowsl (set_nth d K Ms) = rowsl Ms /\ colsl (set_nth d K Ms) = colsl Ms.
+Proof.
+  induction Ms as [|M Ms IH]; intros d K Hr Hc Hd. simpl in Hd; lia.
+  destruct d as [|d]; simpl in *.
+  - unfold Proofs2.rowsl, Proofs2.colsl. simpl. rewrite Hr, Hc. auto.
+  - destruct (IH d K Hr Hc ltac:(lia)) as [E1 E2]. unfold Proofs2.rowsl, Proofs2.colsl in *. simpl. rewrite E1, E2. auto.
+Qed.
+
+Lemma eig_nth_dims : forall fs, Forall eig_ok fs -> forall d, (d < length fs)%nat ->
+  mrows R (nth d (map (fK R) fs) dfltm) = mrows R (nth d (map (fM R) fs) dfltm) /\
+  mcols R (nth d (map (fK R) fs) dfltm) = mcols R (nth d (map (fM R) fs) dfltm).
+Proof.
+  induction 1 as [|f fs Hf Hfs IH]; intros d Hd. simpl in Hd; lia.
+  destruct d as [|d]; simpl.
+  - destruct Hf as [K1 [K2 [M1 [M2 _]]]]. split; congruence.
+  - apply IH. simpl in Hd. lia.
+Qed.
+
+Lemma lap_sum : forall fs, Forall eig_ok fs -> forall i j,
+  sumn (length fs) (fun d => kron_ent (set_nth d (nth d (map (fK R) fs) dfltm) (map (fM R) fs)) i j) = lap_ent fs i j.
+Proof.
+  induction 1 as [|f fs Hf Hfs IH]; intros i j.
+  - reflexivity.
+  - destruct (eig_dims R rO rI radd rmul fs Hfs) as [E1 [E2 _]].
+    cbn [length map]. rewrite sumn_shift.
+    cbn [Model2.set_nth nth Proofs2.kron_ent Proofs2.lap_ent].
+    fold (rowsl (map (fM R) fs)). fold (colsl (map (fM R) fs)). rewrite E1, E2.
+    f_equal.
+    rewrite (sumn_ext _ _ (fun d => ment R (fM R f) (i / prodl (sizes fs)) (j / prodl (sizes fs)) *
+        kron_ent (set_nth d (nth d (map (fK R) fs) dfltm) (map (fM R) fs)) (i mod prodl (sizes fs)) (j mod prodl (sizes fs)))).
+    + rewrite sumn_mul_l, IH. reflexivity.
+    + intros d Hd.
+      destruct (eig_nth_dims fs Hfs d Hd) as [D1 D2].
+      destruct (shapes_set_nth (map (fM R) fs) d _ D1 D2 ltac:(rewrite map_length; assumption)) as [S1 S2].
+      fold (rowsl (set_nth d (nth d (map (fK R) fs) dfltm) (map (fM R) fs))).
+      fold (colsl (set_nth d (nth d (map (fK R) fs) dfltm) (map (fM R) fs))).
+      rewrite S1, S2, E1, E2. reflexivity.
+Qed.
+
+Lemma lap_code_spec_l : forall fs, Forall eig_ok fs -> forall i j,
+  (i < prodl (sizes fs))%nat -> (j < prodl (sizes fs))%nat ->
+  fastdiag_lap_code R rO rI radd rmul (map (fK R) fs) (map (fM R) fs) i j = lap_ent fs i j.
+Proof.
+  intros fs H i j Hi Hj. unfold fastdiag_lap_code. rewrite map_length.
+  rewrite <- (lap_sum fs H i j). apply sumn_ext. intros d Hd.
+  destruct (eig_dims R rO rI radd rmul fs H) as [E1 [E2 _]].
+  destruct (eig_nth_dims fs H d Hd) as [D1 D2].
+  destruct (shapes_set_nth (map (fM R) fs) d _ D1 D2 ltac:(rewrite map_length; assumption)) as [S1 S2].
+  destruct (kron_reduce_spec_l (set_nth d (nth d (map (fK R) fs) dfltm) (map (fM R) fs))) as [_ [_ Hent]].
+  apply Hent; rewrite ?S1, ?S2, ?E1, ?E2; assumption.
+Qed.
+
+(* the eigenvalue sum *)
+Lemma kron_ones : forall ns i j, kron_ent (map onesv ns) i j = 1.
+Proof. induction ns; intros; simpl. reflexivity. rewrite IHns. unfold Model2.ones. ring. Qed.
+
+Lemma shapes_onesv : forall ns, rowsl (map onesv ns) = ns /\ prodl (colsl (map onesv ns)) = 1%nat.
+Proof.
+  induction ns; simpl. auto. destruct IHns as [E1 E2].
+  unfold Proofs2.rowsl, Proofs2.colsl in *. simpl. rewrite E1, E2. auto.
+Qed.
+
+Lemma shapes_set_vec : forall ns d v, (d < length ns)%nat ->
+  rowsl (set_nth d (colvec (nth d ns 0%nat) v) (map onesv ns)) = ns /\
+  prodl (colsl (set_nth d (colvec (nth d ns 0%nat) v) (map onesv ns))) = 1%nat.
+Proof.
+  induction ns as [|n ns IH]; intros d v Hd. simpl in Hd; lia.
+  destruct d as [|d]; simpl.
+  - destruct (shapes_onesv ns) as [E1 E2]. unfold Proofs2.rowsl, Proofs2.colsl in *. simpl. rewrite E1, E2. auto.
+  - destruct (IH d v ltac:(simpl in Hd; lia)) as [E1 E2]. unfold Proofs2.rowsl, Proofs2.colsl in *. simpl. rewrite E1, E2. auto.
+Qed.
+
+Lemma diag_sum : forall fs c,
+  sumn (length fs) (fun d => kron_ent (set_nth d (colvec (nth d (sizes fs) 0%nat) (nth d (map (flam R) fs) (fun _ => rO)))
+                                               (map onesv (sizes fs))) c 0%nat) = diag_ev fs c.
+Proof.
+  induction fs as [|f fs IH]; intros c.
+  - reflexivity.
+  - cbn [length map Proofs2.sizes]. fold (sizes fs). rewrite sumn_shift.
+    cbn [Model2.set_nth nth Proofs2.kron_ent Proofs2.diag_ev Model2.colvec ment].
+    destruct (shapes_onesv (sizes fs)) as [O1 O2].
+    fold (rowsl (map onesv (sizes fs))). fold (colsl (map onesv (sizes fs))). rewrite O1, O2.
+    rewrite kron_ones.
+    rewrite (sumn_ext _ _ (fun d => kron_ent (set_nth d (colvec (nth d (sizes fs) 0%nat) (nth d (map (flam R) fs) (fun _ => rO)))
+                                              (map onesv (sizes fs))) (c mod prodl (sizes fs)) 0%nat)).
+    + rewrite IH. ring.
+    + intros d Hd.
+      destruct (shapes_set_vec (sizes fs) d (nth d (map (flam R) fs) (fun _ => rO))
+                  ltac:(unfold Proofs2.sizes; rewrite map_length; assumption)) as [S1 S2].
+      fold (rowsl (set_nth d (colvec (nth d (sizes fs) 0%nat) (nth d (map (flam R) fs) (fun _ => rO))) (map onesv (sizes fs)))).
+      fold (colsl (set_nth d (colvec (nth d (sizes fs) 0%nat) (nth d (map (flam R) fs) (fun _ => rO))) (map onesv (sizes fs)))).
+      rewrite S1, S2. unfold Model2.ones. rewrite Nat.mod_1_r. ring.
+Qed.
+
+Lemma diag_code_spec_l : forall fs c, (c < prodl (sizes fs))%nat ->
+  fastdiag_diag_code R rO rI radd rmul (sizes fs) (map (flam R) fs) c = diag_ev fs c.
+Proof.
+  intros fs c Hc. unfold fastdiag_diag_code.
+  assert (EL : length (sizes fs) = length fs) by (unfold Proofs2.sizes; apply map_length).
+  rewrite EL. rewrite <- (diag_sum fs c). apply sumn_ext. intros d Hd.
+  destruct (shapes_set_vec (sizes fs) d (nth d (map (flam R) fs) (fun _ => rO)) ltac:(rewrite EL; assumption)) as [S1 S2].
+  destruct (kron_reduce_spec_l (set_nth d (colvec (nth d (sizes fs) 0%nat) (nth d (map (flam R) fs) (fun _ => rO)))
+                                        (map onesv (sizes fs)))) as [_ [_ Hent]].
+  apply Hent; rewrite ?S1, ?S2; auto.
+Qed.
+
+(* fastdiag_inverts about the expressions the code builds *)
+Lemma fastdiag_inverts_code_l : forall (fs : list (eigfac R)) (Us : list (operand R)) (dinv : nat -> R) (x : arr R),
+  Forall eig_ok fs -> omats Us = map (fU R) fs ->
+  (forall c, (c < prodl (sizes fs))%nat ->
+     fastdiag_diag_code R rO rI radd rmul (sizes fs) (map (flam R) fs) c * dinv c = 1) ->
+  ashape R x = [prodl (sizes fs)] ->
+  forall i, (i < prodl (sizes fs))%nat ->
+  sumn (prodl (sizes fs)) (fun j => fastdiag_lap_code R rO rI radd rmul (map (fK R) fs) (map (fM R) fs) i j *
+                                    aat R (fastdiag_apply R rO radd rmul Us dinv x) [j]) = aat R x [i].
+Proof.
+  intros fs Us dinv x H HU Hd Hx i Hi.
+  rewrite (sumn_ext _ _ (fun j => lap_ent fs i j * aat R (fastdiag_apply R rO radd rmul Us dinv x) [j]))
+    by (intros j Hj; rewrite lap_code_spec_l by assumption; reflexivity).
+  apply (fastdiag_inverts_l R rO rI radd rmul rsub ropp Rth); auto.
+  intros c Hc. rewrite <- diag_code_spec_l by assumption. apply Hd. assumption.
+Qed.
+
+Lemma fastdiag_inverts_code_mat_l : forall (fs : list (eigfac R)) (Us : list (operand R)) (dinv : nat -> R) (x : arr R) m,
+  Forall eig_ok fs -> omats Us = map (fU R) fs ->
+  (forall c, (c < prodl (sizes fs))%nat ->
+     fastdiag_diag_code R rO rI radd rmul (sizes fs) (map (flam R) fs) c * dinv c = 1) ->
+  ashape R x = [prodl (sizes fs); m] ->
+  forall i k, (i < prodl (sizes fs))%nat -> (k < m)%nat ->
+  sumn (prodl (sizes fs)) (fun j => fastdiag_lap_code R rO rI radd rmul (map (fK R) fs) (map (fM R) fs) i j *
+                                    aat R (fastdiag_apply_mat R rO radd rmul Us dinv x) [j; k]) = aat R x [i; k].
+Proof.
+  intros fs Us dinv x m H HU Hd Hx i k Hi Hk.
+  rewrite (sumn_ext _ _ (fun j => lap_ent fs i j * aat R (fastdiag_apply_mat R rO radd rmul Us dinv x) [j; k]))
+    by (intros j Hj; rewrite lap_code_spec_l by assumption; reflexivity).
+  apply (fastdiag_inverts_mat_l fs Us dinv x m); auto.
+  intros c Hc. rewrite <- diag_code_spec_l by assumption. apply Hd. assumption.
+Qed.
+
 End Proofs3.
